@@ -164,7 +164,7 @@ static void check_common(int r, int expect_ret)
 	}
 	__CPROVER_assert(g_waits == 1, "[C07] exactly one kernel wait");
 	__CPROVER_assert(g_wait_with_pending == 0 && g_wait_kernel_stale == 0 && k_ctl_bad == 0, "[C02] deferred ADD/MOD/DEL are flushed before every wait: when the thread sleeps the kernel's interest equals the wanted bands");
-	__CPROVER_assert(v_state.time_valid == 0, "[C04,C15] the cached clock is invalidated after every wait, also an interrupted one");
+	__CPROVER_assert(v_state.time_valid == 0, "[C04,C15,C05,C07] the cached clock is invalidated after every wait, also an interrupted one (otherwise a signal keeps due timers from running and the loop blocks again while something is due)");
 	__CPROVER_assert(g_mr_bad == 0, "[C03] only real descriptors are made ready, one band at a time, on the caller's batch (the kick and timer entries are never treated as descriptors)");
 	__CPROVER_assert(g_mr[0] == exp[0] && g_mr[1] == exp[1], "[C03,C02] ready bands are exactly the bands of the kernel-reported events: IN|ERR|HUP->in, OUT|ERR|HUP->out, ERR|HUP->err; unreported descriptors are not touched");
 	__CPROVER_assert(g_run_events == (kicks ? 1 : 0), "[C08] pending cross-thread events are run iff the kick entry was reported");
